@@ -493,11 +493,13 @@ func (group *Group) feedRtpPacket(pkt rtprtcp.RtpPacket) {
 		}
 
 		if !boundaryChecked {
+			// 注意，只有视频包才参与GOP起始位置的判断，音频包的内容不能当作nal解析
+			isVideo := group.sdpCtx.IsVideoPayloadTypeOrigin(int(pkt.Header.PacketType))
 			switch group.sdpCtx.GetVideoPayloadTypeBase() {
 			case base.AvPacketPtAvc:
-				boundary = rtprtcp.IsAvcBoundary(pkt)
+				boundary = isVideo && rtprtcp.IsAvcBoundary(pkt)
 			case base.AvPacketPtHevc:
-				boundary = rtprtcp.IsHevcBoundary(pkt)
+				boundary = isVideo && rtprtcp.IsHevcBoundary(pkt)
 			default:
 				// 注意，不是avc和hevc时，直接发送
 				boundary = true
